@@ -57,6 +57,18 @@ theorem all_messageSetFile (ms : MsgSt) (dir name : Bytes) (fd : Option Handle) 
   simp only [bind_eq, pure_eq, call_bind]
   repeat' (first | exact rfl | all_step)
 
+theorem harmless_messageSetFileMoved (ms : MsgSt) (s d : Subdir) (dir name : Bytes) :
+    Calls Harmless (messageSetFileMoved ms s d dir name) := by
+  unfold messageSetFileMoved
+  simp only [bind_eq, pure_eq, call_bind]
+  repeat' harmless_step
+
+theorem all_messageSetFileMoved (ms : MsgSt) (s d : Subdir) (dir name : Bytes) :
+    All (fun r => r.1.msg = ms.msg) (messageSetFileMoved ms s d dir name) := by
+  unfold messageSetFileMoved
+  simp only [bind_eq, pure_eq, call_bind]
+  repeat' (first | exact rfl | all_step)
+
 theorem GoodAt.step_err {w cs p n fid} (hg : GoodAt w cs p n fid) (c : Call) (e : String)
     (h1 : ∀ d, c ≠ .closedir d) (h2 : ∀ d, c ≠ .close d) (h3 : ∀ d, c ≠ .fclose d) :
     GoodAt (stepWorld w c (.err e)) cs p n fid := by
